@@ -110,7 +110,7 @@ T0_POOL = [(2020, 2, 28, 23, 59, 58), (2023, 12, 31, 23, 59, 58), (2001, 1, 1, 0
 class Conc(object):
     """One concretisation of the abstract universe, chosen by seed."""
 
-    def __init__(self, seed=0, names=None, uid=None, t0=None, variants=None, nonutf8=False, xdg_rel=False, deep=None):
+    def __init__(self, seed=0, names=None, uid=None, t0=None, variants=None, nonutf8=False, xdg_rel=False, deep=None, td_link=None):
         rnd = random.Random('conc|%s' % seed)
         self.seed = seed
         pool = NAME_POOL_NONUTF8 if nonutf8 else NAME_POOL
@@ -125,6 +125,11 @@ class Conc(object):
         self.clock_via_env = rnd.random() < 0.5
         self.xdg_link = rnd.random() < 0.3        # $XDG_DATA_HOME is a symlink to a directory (trash dir reached through a link)
         self.deep = (rnd.random() < 0.1) if deep is None else deep     # the sandbox lives under long non-ASCII directories
+        # --trash-dir on a non-root volume is always given through a symlink that lives on the root volume (every command
+        # gets the same spelling): relative Path= values are then relative to the volume of the path as spelled
+        self.td_link = (rnd.random() < 0.12) if td_link is None else td_link
+        if os.environ.get('VERIF_FORCE_TDLINK'):
+            self.td_link = True            # debugging aid: every world uses the linked spelling
 
     def name(self, n):
         return self.names[n]
@@ -282,11 +287,35 @@ class World(object):
             return os.path.join(self.home(), 'realxdg', 'Trash')
         return p
 
+    def td_linked(self, t):
+        """is the custom trash directory t handed to the commands through the symlink on the root volume?"""
+        return bool(getattr(self.conc, 'td_link', False)) and tkind(t) == 'c' and self.vol_of_region(treg(t)) != 'R'
+
+    def td_arg(self, t):
+        """the --trash-dir argument for t"""
+        if self.td_linked(t):
+            return os.path.join(self.root, 'tdl', 'to-' + treg(t), 'ct')
+        return self.tpath(t)
+
+    def make_td_links(self):
+        made = False
+        for r in REGIONS:
+            t = 'c:' + r
+            if self.td_linked(t) and os.path.isdir(self.rpath(r)):
+                ln = os.path.join(self.root, 'tdl', 'to-' + r)
+                if not os.path.lexists(ln):
+                    os.makedirs(os.path.dirname(ln), exist_ok=True)
+                    os.symlink(self.rpath(r), ln)
+                    made = True
+        return made
+
     def tbase(self, t):
         """directory that relative Path= values are relative to (None: absolute paths are written)"""
         k = tkind(t)
         if k == 'home':
             return None
+        if self.td_linked(t):
+            return self.rpath('R')         # the volume of the path as spelled (the link lives on the root volume)
         return self.rpath(self.vol_of_region(treg(t)))
 
     def env(self, extra=None):
@@ -498,7 +527,13 @@ class World(object):
                 bb = os.fsencode(base)
                 if p.startswith(bb + b'/'):
                     p = p[len(bb) + 1:]     # else: a foreign writer's absolute Path in a volume trash directory
-            return format_info(p, None if date == NODATE else conc.date_str(date))
+            if date == NODATE:
+                # "no date": the line is missing, or present and unparseable (garbage, or well-shaped but not a calendar date)
+                rr = random.Random('nodate|%s|%s|%s|%s' % (conc.variant_seed, t, d, n))
+                bad = rr.choice([None, None, b'garbage', b'', b'2023-02-30T12:00:00', b'2021-04-31T00:00:00', b'2020-13-01T00:00:00',
+                                 b'0000-01-01T00:00:00', b'2020-01-01', b'2020-01-01T24:00:00', b'2019-02-29T23:59:59'])
+                return format_info(p, None) + (b'DeletionDate=' + bad + b'\n' if bad is not None else b'')
+            return format_info(p, conc.date_str(date))
 
         for i in sorted(st['items'], key=lambda x: (x['t'], x['o'])):
             t = i['t']
@@ -528,6 +563,7 @@ class World(object):
         for j in sorted(st['junk'], key=lambda x: (x['t'], x['id'])):
             tp = os.fsencode(self.tpath(j['t']))
             self.write_junk(tp, j)
+        self.make_td_links()
         self.baseline = snapshot(self.root)
         return self
 
